@@ -1,10 +1,12 @@
 import RbV.Spec.Align
 /-!
-Functional mirror of the matrix fill of `bio::alignment::pairwise::Aligner::custom`
-(src/alignment/pairwise/mod.rs) — score part.  Core Lean only, no `Id.run do`, no arrays: every loop of the Rust text
+Functional mirror of `bio::alignment::pairwise::Aligner::custom` (src/alignment/pairwise/mod.rs): matrix fill,
+the two loops over the last column, traceback.  Core Lean only, no `Id.run do`, no arrays: every loop of the Rust text
 is a recursion on its index and every `&mut` a returned value, so that the column invariant can be proved by
-induction over `j` and, inside a column, over `i` (`RbV/Lemmas/Fill*.lean`, theorem `fill_score_eq_opt` in
-`RbV/Thm/C01.lean`).
+induction over `j` and, inside a column, over `i` (`RbV/Lemmas/Fill*.lean`; theorems `fill_score_eq_opt` — the score
+is the optimum — and `custom_model_accepted` — the traceback terminates and its output passes `accept` — in
+`RbV/Thm/C01.lean`).  The driver runs `custom` on every call next to the implementation (`fill-model=impl`,
+`fill-path=impl`; a difference is a `drift-*` tag).
 
 Correspondence with the Rust text (same comparisons, same strictness `>`, same order of the candidates):
 
